@@ -106,11 +106,12 @@ def _factory(params, env=None):
     return fn
 
 
-HARNESSES = {"crash": _factory}
+from props._cold import cold_factory  # noqa: E402
+HARNESSES = {"crash": _factory, "cold-crash": cold_factory}
 
 
 def replay(harness, params, model):
-    return std_replay(_factory, harness, params, model)
+    return std_replay(HARNESSES[harness], harness, params, model)
 
 
 def signature(harness, params, rec):
@@ -129,6 +130,8 @@ def jobs(tier):
     q = tier == "quick"
     out = []
     for f in (("oid", "path") if q else ("oid", "path", "mixed")):
+        # first start over accounts that already hold content: the process dies at any storage / provider write of the first run (start-up walk included)
+        out.append({"harness": "cold-crash", "params": {"flavour": f, "mode": "crash", "maxcrash": 45}, "label": "%s/cold-start/crash" % f})
         for side in (0, 1):
             for op in OPS:
                 out.append({"harness": "crash", "params": {"flavour": f, "nops": 2 if q else 3, "maxcrash": 10 if q else 14, "first": [side, op]},
